@@ -13,7 +13,7 @@ import time
 
 VERIF = os.path.dirname(os.path.dirname(os.path.abspath(__file__)))
 FILL_OPS = ("Fill", "FillNoW", "Increment")
-NEW_OPS = ("New", "NewDefault", "NewShared", "MH")
+NEW_OPS = ("New", "NewDefault", "NewShared", "NewConv", "MH")
 DERIVE = {"Add": "add", "Combine": "add", "Mul": "mul", "Zero": "zero", "Copy": "copy", "Pickle": "pickle",
           "Reload": "reload", "Immutable": "reload", "Histogram": "conv", "FractionBuild": "conv"}
 
@@ -144,6 +144,10 @@ def attribute(ev, cl, tags, trace):
         # a view that changes the histogram it describes breaks C06 (read accessors are pure) and C13 (the views no
         # longer agree with what was filled)
         return {"C06", "C13"} if cl in ("frame", "noshare") else {"C13"}
+    if op == "Acc":
+        # the scalar look-up accessors: their purity is C06's claim; their values belong to no listed property (the
+        # specification covers them all the same, see BEYOND below)
+        return {"C06"} if cl in ("frame", "noshare") else set()
     if op == "Doc":
         return {"C06"} if cl in ("frame", "noshare") else {"C04"} | lineage
     if op == "FromDoc":
@@ -196,6 +200,13 @@ def judge(pid, traces, verdicts):
                 done = True
                 break
             if {v["cl"] for v in vs[l]} <= {"noshare", "identity"}:
+                continue
+            if ev["op"] == "Acc" and not props and {v["cl"] for v in vs[l]} <= {"flags", "outcome"}:
+                # behaviour the specification describes beyond the listed properties: noted, never an alarm
+                for v in vs[l]:
+                    names = sorted(v["obs"][0]) if v.get("obs") else [ev.get("exc", "?")]
+                    key = "beyond:Acc:%s:%s" % (tr.get("root", "?"), ",".join(map(str, names)))
+                    foreign[key] = foreign.get(key, 0) + 1
                 continue
             key = ",".join(sorted(props)) or "unattributed:%s:" % ev["op"] + ",".join(sorted({v["cl"] for v in vs[l]}))
             foreign[key] = foreign.get(key, 0) + 1
